@@ -17,3 +17,10 @@ func VerifSetConfig(fname string, request url.URL) error { return setConfig(fnam
 
 // VerifRemoveConfig exposes removeConfig to the verification harness.
 func VerifRemoveConfig(fname, config string) error { return removeConfig(fname, config) }
+
+// VerifCurrentConfig renders the option values currently in effect.
+func VerifCurrentConfig() string {
+	cfg := currentConfig()
+	u, _ := cfg.makeURL(url.URL{})
+	return u.RawQuery
+}
